@@ -67,19 +67,18 @@ ASSUMPTIONS = [
     "that has started completes",
 ]
 
-BLOCK = 4
-VERBS = ["RETR", "STOR", "APPE", "LIST", "MLSD"]
-FILES = {"f": 10, "old": 6, "d/": 0, "d/a": 3, "d/b": 4, "d/c": 5}
-LOGIN = [["cmd", "USER anonymous"], ["cmd", "PASV"]]
-DONE = {"RETR": 226, "STOR": 226, "APPE": 226, "LIST": 226, "MLSD": 200}
+BLOCK = xfer.BLOCK
+VERBS = xfer.VERBS
+FILES = xfer.FILES
+LOGIN = xfer.LOGIN_STEPS
+DONE = xfer.DONE
 
 KEY_F2 = "c14-abor-while-worker-waits-for-data-connection"
 KEY_F3 = "c14-abor-unanswered-worker-finished-not-reaped"
 KEY_F4 = "c14-abor-during-file-open-data-stream-left-open"
 
 
-def cmd_of(verb):
-    return {"RETR": "RETR f", "STOR": "STOR up", "APPE": "APPE old", "LIST": "LIST d", "MLSD": "MLSD d"}[verb]
+cmd_of = xfer.cmd_of
 
 
 FOLLOWUPS = {
@@ -101,59 +100,9 @@ FOLLOW_CODES = {
 
 
 def abor_case(verb, place, size=None, follow="pwd", pool=True, rest=None):
-    """place: ("nodata",) | ("gate", op, n) | ("sent", j) | ("noread",) | ("ticks", n) | ("pipe",) | ("pipe_nodata",)
-              | ("done",) | ("idle", "login"|"pasv"|"pasv_dconn") | ("late_gate", op, n)"""
-    files = dict(FILES)
-    block = BLOCK
-    payload = 10 if size is None else size
-    if verb == "RETR" and size is not None:
-        files["f"] = size
-    steps = list(LOGIN)
-    gates = []
-    c = cmd_of(verb) if verb else None
-    pre = [["cmd", f"REST {rest}"]] if rest else []
+    """place: see xfer.transfer_setup"""
+    steps, gates, files, block, payload = xfer.transfer_setup(verb, place, size=size, rest=rest)
     kind = place[0]
-    if kind == "idle":
-        steps = [["cmd", "USER anonymous"]]
-        if place[1] in ("pasv", "pasv_dconn"):
-            steps.append(["cmd", "PASV"])
-        if place[1] == "pasv_dconn":
-            steps.append(["dconn"])
-    elif kind == "nodata":
-        steps += pre + [["cmd", c]]
-    elif kind == "gate":
-        gates = [[place[1], place[2]]]
-        steps += [["dconn"]] + pre + [["cmd", c]]
-        if verb in ("STOR", "APPE"):
-            steps += [["dsend", payload]]
-            if place[1] == "close":
-                steps += [["deof"]]
-    elif kind == "handler_gate":  # the command itself is still being processed (before 150)
-        gates = [[place[1], place[2]]]
-        steps += [["dconn"]] + pre + [["cmd", c]]
-    elif kind == "late_gate":  # the data connection arrives after 150
-        gates = [[place[1], place[2]]]
-        steps += pre + [["cmd", c], ["dconn"]]
-        if verb in ("STOR", "APPE"):
-            steps += [["dsend", payload]]
-    elif kind == "sent":
-        steps += [["dconn"]] + pre + [["cmd", c], ["dsend", place[1]]]
-    elif kind == "noread":
-        files["f"] = 300000
-        block = 65536
-        steps += [["dconn_noread"], ["cmd", c]]
-    elif kind == "ticks":
-        steps += [["dconn"]] + pre + [["ticksend", [c, place[1], "ABOR"]]]
-    elif kind == "pipe":
-        steps += [["dconn"]] + pre + [["pipe", [c, "ABOR"]]]
-    elif kind == "pipe_nodata":
-        steps += pre + [["pipe", [c, "ABOR"]]]
-    elif kind == "done":
-        steps += [["dconn"]] + pre + [["cmd", c]]
-        if verb in ("STOR", "APPE"):
-            steps += [["dsend", payload], ["deof"]]
-    else:
-        raise ValueError(place)
     steps.append(["snap", "before"])
     if kind not in ("ticks", "pipe", "pipe_nodata"):
         steps.append(["cmd", "ABOR"])
